@@ -123,7 +123,7 @@ func exploreDKG(c *Ctx, n, t int, hooks dkgHooks, maxStates int) (states, transi
 }
 
 func checkC05(c *Ctx) {
-	c.Rule = "breadth-first exploration of the real BaseNodeService.ProcessMessage (node 0, in-memory state store) over the public event alphabet {init, confirm, decline, commit, deal, response, master key, the four error reports, signing proposal} x participant ids {0..n-1, n, 99} x variants {valid, late-timestamped, empty payload, mismatching key, duplicate (= same event again)} to a fixpoint of (public projection of the round, monitor state), for every (n,t) in the tier's bound. History monitors M1 (exactly-once, in phase order, by invited participants; signing-ready only after all five phases), M2 (cancelled never becomes signing-ready), M3 (rejected => round, operation pool and signature store unchanged), M4 (decline / error / late / differing key accepted => cancelled), M5 (a well-formed timely failure report or decline by a participant whose contribution of the running phase is awaited is not refused). The alphabet also holds late-stamped messages of uninvited ids and same-instant duplicates with other content; a second exploration runs on a node with the daemon's --skip_comm_keys_verification on (the round's own rules decide alone). In every persisted state every *_internal event delivered to the restored round from outside must be refused. distinct = distinct abstract states reached"
+	c.Rule = "breadth-first exploration of the real BaseNodeService.ProcessMessage (node 0, in-memory state store) over the public event alphabet {init, confirm, decline, commit, deal, response, master key, the four error reports, signing proposal} x participant ids {0..n-1, n, 99} x variants {valid, late-timestamped, empty payload, mismatching key, duplicate (= same event again)} to a fixpoint of (public projection of the round, monitor state), for every (n,t) in the tier's bound. History monitors M1 (exactly-once, in phase order, by invited participants; signing-ready only after all five phases), M2 (cancelled never becomes signing-ready), M3 (rejected => round, operation pool and signature store unchanged), M4 (decline / error / late / differing key accepted => cancelled), M5 (a well-formed timely failure report or decline by a participant whose contribution of the running phase is awaited is not refused). The alphabet also holds late-stamped messages of uninvited ids and same-instant duplicates with other content; a second exploration runs on a node with the daemon's --skip_comm_keys_verification on (the round's own rules decide alone). In every persisted state every *_internal event delivered to the restored round from outside must be refused. Fault family: one read of the state database fails while the node handles a message; a round cancelled before must still be cancelled after its opening proposal and confirmations are delivered again. distinct = distinct abstract states reached"
 	c.Assumptions = []string{"MemState substituted for LevelDB (same Get/Set semantics)", "explored from one node's point of view: deals are the per-recipient ones plus the self-confirmation", "messages are harness-built and signed with the claimed participant's registered key (unknown ids are claimed by a legitimate sender)", "a missing round and a freshly created idle round are treated as the same round state (byte-exactness of rejected input is C18's subject)"}
 	maxN := c.Pick(3, 4)
 	c.Exhaustive = true
@@ -309,6 +309,84 @@ func checkC05(c *Ctx) {
 			c.Sample(map[string]interface{}{"n": n, "t": t, "states": st, "transitions": tr, "cancelled_state_names": sortedKeys(cancelledSeen)})
 		}
 	})
+	c05ReadFault(c)
+}
+
+// c05ReadFault: "a cancelled round can never become signing-ready" also when the node's state database fails
+// one read at some moment (a transient I/O error of a long-running daemon). Round A is cancelled by a decline.
+// Then exactly the k-th read of the rounds' key fails (k = 1..6) while the node handles either A's opening
+// proposal delivered again or the opening of an unrelated round B; afterwards A's opening proposal and every
+// participant's confirmation are delivered (no fault): A must still be cancelled on this node.
+func c05ReadFault(c *Ctx) {
+	for _, during := range []string{"re-delivered opening of the cancelled round", "opening of another round"} {
+		for k := 1; k <= 6; k++ {
+			func() {
+				seed := c.Seed*877 + uint64(k)
+				w, err := world.NewWorld(world.Options{N: 3, T: 2, Seed: seed})
+				if err != nil {
+					c.Inconclusive("read-fault world: %v", err)
+					return
+				}
+				defer w.Close()
+				v := w.Nodes[0]
+				round, err := w.StartDKG(0, 2, now())
+				if err != nil {
+					c.Inconclusive("read-fault world: %v", err)
+					return
+				}
+				opening := w.Board.All()[0]
+				_ = w.Board.Send(world.SignMsg(w.Nodes[1], round, EvDecline, mkReq(requests.SignatureProposalParticipantRequest{ParticipantId: 1, CreatedAt: now()}), ""))
+				_, _ = v.PollStep(0)
+				if st := NodeState(v, round); !isCancelled(st) {
+					c.Inconclusive("read-fault world: the decline did not cancel the round (%s)", st)
+					return
+				}
+				wit := map[string]interface{}{"family": "one failing read of the state database", "failing_read": k, "during": during, "case_seed": seed}
+				key := world.Topic + "_fsm_state"
+				reads, failed := 0, false
+				v.State.FailOp = func(op, k2 string) error {
+					if op == "get" && k2 == key {
+						reads++
+						if reads == k {
+							failed = true
+							return fmt.Errorf("leveldb: too many open files (injected)")
+						}
+					}
+					return nil
+				}
+				again := opening
+				again.ID = "again-" + opening.ID
+				if during == "opening of another round" {
+					if _, err := w.StartDKG(2, 2, now().Add(time.Second)); err != nil {
+						c.Inconclusive("read-fault world: second round: %v", err)
+						return
+					}
+				} else {
+					_ = w.Board.Send(again)
+				}
+				_, _ = v.PollStep(0)
+				v.State.FailOp = nil
+				c.Eval(1)
+				if !failed {
+					return // fewer than k reads of that key in this step
+				}
+				c.Add("messages_handled_with_one_failing_state_read", 1)
+				c.Distinct(fmt.Sprintf("read-fault|%s|k=%d", during, k))
+				// no fault from here on: the opening proposal once more, then everybody confirms
+				again.ID = "again2-" + opening.ID
+				_ = w.Board.Send(again)
+				for p := 0; p < 3; p++ {
+					_ = w.Board.Send(world.SignMsg(w.Nodes[p], round, EvConfirm, mkReq(requests.SignatureProposalParticipantRequest{ParticipantId: p, CreatedAt: now()}), ""))
+				}
+				for i := 0; i < 3; i++ {
+					_, _ = v.PollStep(0)
+				}
+				if st := NodeState(v, round); !isCancelled(st) {
+					c.Violate("C05/M2-cancelled-round-left-the-cancelled-state", fmt.Sprintf("the round that participant 1 declined is in %q after the node's state database failed one read (read %d of the rounds' key, during the %s) and the opening proposal and confirmations were delivered again", st, k, during), wit)
+				}
+			}()
+		}
+	}
 }
 
 // internalEvents: every event name of the three machines that ends in _internal.
